@@ -157,6 +157,7 @@ def as_chars(v):
 def quote(s):
     o = ['"']
     for c in s:
+        if not isinstance(c, str): o.append('?'); continue      # symbolic character (messages only)
         if c == '"': o.append('\\"')
         elif c == '\\': o.append('\\\\')
         elif c == '\n': o.append('\\n')
